@@ -37,8 +37,7 @@ def setQuirk (q : Quirks) (kv : String) : Option Quirks :=
   match kv.splitOn "=" with
   | [k, v] =>
     let b := v == "1"
-    if k == "emptyKeyRefused" then some { q with emptyKeyRefused := b }
-    else if k == "lazyExpiryOnlyOnStringReads" then some { q with lazyExpiryOnlyOnStringReads := b }
+    if k == "lateExpiryVisible" then some { q with lateExpiryVisible := b }
     else none
   | _ => none
 
